@@ -39,9 +39,15 @@ static J gen_planar(Chooser &ch)
       s["t0"] = t0; s["t1"] = ch.chance(40) ? ch.lattice(20e3, 200e3, 10e3) : t0;
       const double tt0 = (!fault && ch.chance(35)) ? ch.lattice(-30e3, 15e3, 5e3) : 0.0;
       s["tt0"] = tt0; s["tt1"] = (!fault && ch.chance(25)) ? ch.lattice(-30e3, 15e3, 5e3) : tt0;
+      // how the segment is written: a pair of equal values may be written as one value, a top truncation of zero may be left out
+      // (the documented default) - also behind a segment that has one
+      s["short"] = ch.flip(); s["omit_tt"] = ch.chance(70);
       segs.push(s);
     }
   c["segments"] = segs;
+  // 12%: the same construction in a world whose unit of length is 1000 km (a non-dimensional or laboratory-scale model: coordinates,
+  // lengths and depths of order one) with the dip point 0.4 .. 0.7 units from the trench; the reference stays in metres
+  if (ch.chance(12)) { c["unit"] = 1e-6; c["dip_distance"] = ch.lattice(400e3, 700e3, 50e3); }
   // points in slab coordinates: s along the trench (fraction of its length), `along` the surface (fraction of the total length), normal offset (m)
   J pts = J::arr();
   const int np = static_cast<int>(ch.range(8, 40));
@@ -87,9 +93,12 @@ static Result check_planar(const J &c)
       maxthick = std::max(maxthick, std::max(s.at("t0").num(), s.at("t1").num()));
       J js = J::obj();
       js["length"] = s.at("L");
-      js["thickness"] = J::arr({s.at("t0"), s.at("t1")});
-      js["angle"] = J::arr({s.at("a0"), s.at("a1")});
-      if (!fault) js["top truncation"] = J::arr({s.at("tt0"), s.at("tt1")});
+      const bool shortform = s.has("short") && s.at("short").boolean(), omit_tt = s.has("omit_tt") && s.at("omit_tt").boolean();
+      auto pair = [&](const char *a, const char *b) { return shortform && s.at(a).num() == s.at(b).num() ? J::arr({s.at(a)}) : J::arr({s.at(a), s.at(b)}); };
+      js["thickness"] = pair("t0", "t1");
+      js["angle"] = pair("a0", "a1");
+      if (!fault && !(omit_tt && s.at("tt0").num() == 0 && s.at("tt1").num() == 0)) js["top truncation"] = pair("tt0", "tt1");
+      else if (!fault) r.classes.push_back("segment without a 'top truncation' entry");
       jsegs.push(js);
     }
   // world
@@ -103,10 +112,21 @@ static Result check_planar(const J &c)
   const int extra = static_cast<int>(c.at("extra").num());
   for (int k = 1; k <= extra; ++k) coords.push(jp(x0 + (x1 - x0) * k / (extra + 1.0), y0 + (y1 - y0) * k / (extra + 1.0)));
   coords.push(jp(x1, y1));
+  const double unit = c.has("unit") ? c.at("unit").num() : 1.0, dip_distance = c.has("dip_distance") ? c.at("dip_distance").num() : 5e7;
+  if (unit != 1.0)
+    {
+      r.classes.push_back("unit of length 1000 km");
+      for (auto &p : coords.a) p = jp(p[0].num() * unit, p[1].num() * unit);
+      for (auto &js : jsegs.a)
+        {
+          js["length"] = js.at("length").num() * unit;
+          for (const char *k : {"thickness", "top truncation"}) if (js.has(k)) for (auto &e : js[k].a) e = J(e.num() * unit);
+        }
+    }
   feat["coordinates"] = coords;
-  feat["dip point"] = jp(0.5 * (x0 + x1) + nx * 5e7, 0.5 * (y0 + y1) + ny * 5e7);
-  if (dmin != 0) feat["min depth"] = dmin;
-  if (dmax_given >= 0) feat["max depth"] = dmax_given;
+  feat["dip point"] = jp((0.5 * (x0 + x1) + nx * dip_distance) * unit, (0.5 * (y0 + y1) + ny * dip_distance) * unit);
+  if (dmin != 0) feat["min depth"] = dmin * unit;
+  if (dmax_given >= 0) feat["max depth"] = dmax_given * unit;
   feat["segments"] = jsegs;
   root["features"] = J::arr({feat});
   auto W = make_world(root.dump());
@@ -132,7 +152,7 @@ static Result check_planar(const J &c)
         }
       if (pz_depth < 0 || pz_depth > H) continue;
       const double X = x0 + s_along * tx + px * nx, Y = y0 + s_along * ty + px * ny;
-      const std::array<double, 3> P{{X, Y, H - pz_depth}};
+      const std::array<double, 3> P{{X * unit, Y * unit, (H - pz_depth) * unit}};
       // reference, recomputed from the 3D point (independent of how the point was made)
       const double sfoot = (X - x0) * tx + (Y - y0) * ty;
       const double xoff = (X - x0) * nx + (Y - y0) * ny;
@@ -140,7 +160,11 @@ static Result check_planar(const J &c)
       const bool foot_inside = sfoot >= 0 && sfoot <= len;
       const double end_margin = std::min(sfoot, len - sfoot);
       if (std::fabs(end_margin) < 1e-3 * len && end_margin > -1e-3 * len) { r.classes.push_back("foot-at-trench-end(skipped)"); continue; }
-      const WB::Objects::PlaneDistances got = W->distance_to_plane(P, pz_depth, "line");
+      // which side of the trench a point lies on is decided with the help of the dip point, which works up to twice the dip point's
+      // distance from the trench (the regular cases put it 50 000 km away); stay well inside that range
+      if (std::fabs(xoff) > 1.5 * dip_distance) { r.classes.push_back("beyond the reach of the dip point(skipped)"); continue; }
+      const WB::Objects::PlaneDistances got_raw = W->distance_to_plane(P, pz_depth * unit, "line");
+      const WB::Objects::PlaneDistances got(got_raw.get_distance_from_surface() / unit, got_raw.get_distance_along_surface() / unit);
       r.inner++;
       const bool ref_finite = foot_inside && ref_d.segment >= 0;
       if (ref_finite && (ref_d.margin < 1e-6 * total + 1e-3 || ref_d.tie_gap < 1.0)) { r.classes.push_back("segment-end/tie(skipped)"); continue; }
@@ -163,7 +187,7 @@ static Result check_planar(const J &c)
             return Result::fail(pre + (near_first ? "foot-near-first-trench-coordinate" : (std::fabs(gf - ref_d.from) > tol ? "distance-from-surface" : "distance-along-surface")), c.at("type").str() + ": planar construction gives distance " + fmt(ref_d.from) + " along " + fmt(ref_d.along) + " (segment " + std::to_string(ref_d.segment) + ") but distance_to_plane reports (" + fmt(gf) + "," + fmt(ga) + ") at point " + jp(X, Y, pz_depth).dump() + " (foot at " + fmt(sfoot) + " of " + fmt(len) + ")");
         }
       // membership through the tag
-      const double tag = W->properties(P, pz_depth, {{{4, 0, 0}}})[0];
+      const double tag = W->properties(P, pz_depth * unit, {{{4, 0, 0}}})[0];
       bool want = false;
       bool near_bound = false;
       if (ref_finite)
